@@ -1,2 +1,131 @@
-/- Model driver for C01 (line protocol). Stub until the property's model lands. -/
-def main : IO Unit := pure ()
+/-
+  Model driver for C01 (line protocol, see harness/c01_main.c and tools/props/c01.py). Imports Model only.
+
+    lzma1 <lc> <lp> <pb> <dict> <eopm 0|1> <limit (0 = none)> <micro 0|1> <prefix>
+    lzma2 <lc> <lp> <pb> <dict> <prefix>
+        reads <prefix>.in (data), <prefix>.trace (H2 records, 5 × uint32 LE each), <prefix>.pd (preset dictionary, optional)
+        and <prefix>.out (bytes produced by the C encoder); runs the encoder MODEL over the trace (which also checks that the
+        trace describes the data) and compares its bytes with the C bytes:
+          "ok bytes=<n> nsyms=<k> consumed=<c>"  |  "MISMATCH at=<i> model_len=<a> c_len=<b>"  |  "DESCRIBES-FAIL <text>"
+    dec1 <lc> <lp> <pb> <dict> <prefix>   /  dec2 <dict> <prefix>
+        decodes <prefix>.out with the decoder MODEL of b-c03 (raw LZMA1 with end marker / raw LZMA2) and compares with <prefix>.in:
+          "ok n=<len>"  |  "DECODE-FAIL ret=<r> n=<len> first_diff=<i>"
+    rcdummy <ops> <pending ops> <limit>   rc_encode_dummy after <ops> with <pending ops> queued: "<0|1> <out_total>"
+    rc <hexops>   range coder only: ops as characters 0/1 = direct bit, a..p = bit 0 in context (c - 'a'), A..P = bit 1 in
+        context; 16 contexts starting at 1024; prints the bytes as hex.
+-/
+import XzVerif.Model.Proto
+import XzVerif.Model.Lzma2Enc
+import XzVerif.Model.Lzma2
+open XzVerif XzVerif.Proto XzVerif.RangeEnc XzVerif.LzmaEnc XzVerif.Lzma2Enc
+
+def rd32 (b : ByteArray) (i : Nat) : Nat :=
+  (b.get! i).toNat + 256 * (b.get! (i + 1)).toNat + 65536 * (b.get! (i + 2)).toNat + 16777216 * (b.get! (i + 3)).toNat
+
+def parseTrace (b : ByteArray) : Array TraceRec := Id.run do
+  let n := b.size / 20
+  let mut a : Array TraceRec := Array.mkEmpty n
+  for i in [0:n] do
+    let o := 20 * i
+    a := a.push { kind := rd32 b o, back := rd32 b (o + 4), len := rd32 b (o + 8), pos := rd32 b (o + 12), ra := rd32 b (o + 16) }
+  return a
+
+def readOpt (path : String) : IO ByteArray := do
+  if ← System.FilePath.pathExists path then IO.FS.readBinFile path else pure ByteArray.empty
+
+def firstDiff (a : List UInt8) (b : ByteArray) : Nat := Id.run do
+  let mut i := 0
+  for x in a do
+    if i ≥ b.size || b.get! i != x then return i
+    i := i + 1
+  return i
+
+def compareOut (r : Except String EncResult) (cOut : ByteArray) (fixFirst : Option UInt8) : String :=
+  match r with
+  | .error msg => s!"DESCRIBES-FAIL {msg}"
+  | .ok res =>
+    let out := match fixFirst, res.out with
+      | some b, _ :: t => b :: t
+      | _, o => o
+    if out.length == cOut.size && firstDiff out cOut == cOut.size then
+      s!"ok bytes={out.length} nsyms={res.nsyms} consumed={res.consumed}"
+    else s!"MISMATCH at={firstDiff out cOut} model_len={out.length} c_len={cOut.size}"
+
+def rcOps (s : String) : Option (List Op) :=
+  s.toList.mapM fun c =>
+    if c == '0' then some (.direct false) else if c == '1' then some (.direct true)
+    else if 'a' ≤ c ∧ c ≤ 'p' then some (.bit (c.toNat - 97) false)
+    else if 'A' ≤ c ∧ c ≤ 'P' then some (.bit (c.toNat - 65) true)
+    else none
+
+def step (ws : List String) : IO String := do
+  match ws with
+  | ["rc", ops] =>
+    match rcOps (if ops == "-" then "" else ops) with
+    | some l => pure (hexOfBytes (rcEncode (Array.replicate 16 1024) l).1)
+    | none => pure "bad-op"
+  | ["rcdummy", pre, pend, limit] =>
+    match rcOps (if pre == "-" then "" else pre), rcOps (if pend == "-" then "" else pend), limit.toNat? with
+    | some a, some b, some lim =>
+      let r := encOps (Array.replicate 16 1024) Enc.init a
+      pure s!"{if encodeDummy r.1 r.2 b lim then 1 else 0} {r.2.outTotal}"
+    | _, _, _ => pure "bad-op"
+  | ["lzma1", lc, lp, pb, dict, eopm, limit, micro, prefix_] =>
+    match lc.toNat?, lp.toNat?, pb.toNat?, dict.toNat?, eopm.toNat?, limit.toNat?, micro.toNat? with
+    | some lc, some lp, some pb, some dict, some eopm, some limit, some micro =>
+      let data ← IO.FS.readBinFile (prefix_ ++ ".in")
+      let tr ← IO.FS.readBinFile (prefix_ ++ ".trace")
+      let pd ← readOpt (prefix_ ++ ".pd")
+      let cOut ← IO.FS.readBinFile (prefix_ ++ ".out")
+      let p : Lzma.Props := { lc := lc, lp := lp, pb := pb }
+      let r := lzma1Encode p dict (eopm == 1) limit (pd ++ data) pd.size (parseTrace tr)
+      pure (compareOut r cOut (if micro == 1 then some (UInt8.ofNat (255 - p.encode)) else none))
+    | _, _, _, _, _, _, _ => pure "bad-op"
+  | ["lzma2", lc, lp, pb, dict, prefix_] =>
+    match lc.toNat?, lp.toNat?, pb.toNat?, dict.toNat? with
+    | some lc, some lp, some pb, some dict =>
+      let data ← IO.FS.readBinFile (prefix_ ++ ".in")
+      let tr ← IO.FS.readBinFile (prefix_ ++ ".trace")
+      let pd ← readOpt (prefix_ ++ ".pd")
+      let cOut ← IO.FS.readBinFile (prefix_ ++ ".out")
+      let r := lzma2Encode { lc := lc, lp := lp, pb := pb } dict (pd ++ data) pd.size (parseTrace tr)
+      pure (compareOut r cOut none)
+    | _, _, _, _ => pure "bad-op"
+  | ["dec1", lc, lp, pb, dict, prefix_] =>
+    match lc.toNat?, lp.toNat?, pb.toNat?, dict.toNat? with
+    | some lc, some lp, some pb, some dict =>
+      let data ← IO.FS.readBinFile (prefix_ ++ ".in")
+      let pd ← readOpt (prefix_ ++ ".pd")
+      let cOut ← IO.FS.readBinFile (prefix_ ++ ".out")
+      let r := Lzma.lzmaDecode { lc := lc, lp := lp, pb := pb } dict none true cOut.toList pd.toList
+      if r.ret == .streamEnd && r.out.length == data.size && firstDiff r.out data == data.size && r.consumed == cOut.size then
+        pure s!"ok n={data.size}"
+      else pure s!"DECODE-FAIL ret={r.ret.toNat} n={r.out.length} consumed={r.consumed} first_diff={firstDiff r.out data}"
+    | _, _, _, _ => pure "bad-op"
+  | ["dec2", dict, prefix_] =>
+    match dict.toNat? with
+    | some dict =>
+      let data ← IO.FS.readBinFile (prefix_ ++ ".in")
+      let pd ← readOpt (prefix_ ++ ".pd")
+      let cOut ← IO.FS.readBinFile (prefix_ ++ ".out")
+      let r := Lzma2.lzma2Decode dict cOut.toList pd.toList
+      if r.ret == .streamEnd && r.out.length == data.size && firstDiff r.out data == data.size && r.consumed == cOut.size then
+        pure s!"ok n={data.size}"
+      else pure s!"DECODE-FAIL ret={r.ret.toNat} n={r.out.length} consumed={r.consumed} first_diff={firstDiff r.out data}"
+    | none => pure "bad-op"
+  | _ => pure "bad-op"
+
+partial def loop (i o : IO.FS.Stream) : IO Unit := do
+  let line ← i.getLine
+  if line.isEmpty then
+    o.flush
+    return ()
+  let ws := words line
+  if !ws.isEmpty then
+    let r ← (try step ws catch e => pure s!"io-error {e}")
+    o.putStrLn r
+    o.flush
+  loop i o
+
+def main : IO Unit := do
+  loop (← IO.getStdin) (← IO.getStdout)
